@@ -19,6 +19,14 @@ def jobs(tier):
                    defines=["-DH_INCLUDE_NEW_PARAMETER"], unwind=4, union_struct=True, kind="proof",
                    functions=["check_single_frequency_range", "_vnacal_get_parameter_frange (correlated: sigma grid)"],
                    bound="none: all doubles (two-point sigma grid, scalar guess)", timeout=900))
+    # the caller of the range check: the look-up every vnacal_new_add_* call makes when the frequencies are already known
+    for kind, what in ((0, "vector parameter"), (1, "correlated parameter, sigma grid symbolic"), (2, "correlated parameter over a vector guess, guess symbolic")):
+        J.append(V.Job("range.get_parameter.kind%d" % kind, H, "h_range_get_parameter",
+                       ["vnacal_parameter.c", "vnacal_layout.c"] + ERR,
+                       defines=["-DH_INCLUDE_NEW_PARAMETER", "-DVERIF_BUILTIN_MEM", "-DGP_KIND=%d" % kind],
+                       unwind=10, union_struct=True, kind="proof", canary=(kind == 1),
+                       functions=["_vnacal_new_get_parameter", "get_parameter_node", "check_single_frequency_range"],
+                       bound="none: all doubles (%s)" % what, cbmc_flags=["--no-leak"], timeout=900))
     # every parameter of the collection is checked: the vector parameter's handle (bucket) and the number of parameters enumerated
     for vec, npar in ((3, 3), (7, 2), (1, 5), (4, 2)) if tier == "quick" else [(v, n) for v in (1, 2, 3, 4, 7) for n in (2, 3, 5)]:
         J.append(V.Job("range.all.vec%d_n%d" % (vec, npar), H, "h_range_all",
